@@ -1,5 +1,5 @@
 #!/usr/bin/env python3
-"""usage: seed_full_matrix.py [jobs] [--update] — run, for every confirmed seeded change under /verif/seeded, the check of its own
+"""usage: seed_full_matrix.py [jobs] [--update] [--only=<substring of seed name>] — run, for every confirmed seeded change under /verif/seeded, the check of its own
 property, C19 (whole library), every check whose anchored files the patch touches and every check its meta.json already names;
 prints one line per (seed, check): CAUGHT / silent / ERROR.  With --update, rewrites meta.json `checks_run` / `caught_by` /
 `own_check_catches` from the outcome (scratch copies only; /repo is never touched)."""
@@ -11,10 +11,13 @@ anch = {p["id"]: set(p["anchors"]["files"]) for p in props}
 args = [a for a in sys.argv[1:] if not a.startswith("--")]
 jobs = int(args[0]) if args else 4
 update = "--update" in sys.argv
+only = next((a.split("=", 1)[1] for a in sys.argv if a.startswith("--only=")), "")
 tasks = []
 metas = {}
 for d in sorted((V / "seeded").glob("*/patch.diff")):
     name = d.parent.name
+    if only and only not in name:
+        continue
     meta = json.loads((d.parent / "meta.json").read_text())
     metas[name] = meta
     own = meta["property"]
